@@ -40,6 +40,24 @@ def covers_all_paths(f, blocks):
     return not any(r in reach and r not in blocks for r in rets)
 
 
+def runs_guest(fx, g, suffixes, depth, seen):
+    """the function calls one of `suffixes` itself or through functions of the interpreter (bounded depth)"""
+    if g.path in seen:
+        return False
+    seen.add(g.path)
+    for _, t in g.calls():
+        d = t[1].get("d") or ""
+        if d.endswith(suffixes):
+            return True
+    if depth <= 0:
+        return False
+    for _, t in g.calls():
+        d = t[1].get("d") or ""
+        h = fx.fns.get(d)
+        if h is not None and d.startswith("interpreter::") and runs_guest(fx, h, suffixes, depth - 1, seen):
+            return True
+    return False
+
 def event_blocks(fx, f, direct, depth=2):
     """blocks of f at which an event surely happens: where `direct(f)` says so, or at the call of a private interpreter helper on all of whose
     paths it happens (`begin_new_run()` clears the export table on every path: calling it is clearing the table)"""
@@ -453,12 +471,29 @@ def run(tier):
                 and t[4] is not None and t[4] >= 0]
     live = [bi for bi, t in st.calls() if (t[1].get("d") or "").endswith(("BytecodeVM::from_saved_state", "BytecodeVM::step"))]
     ck.anchor(bool(live), "step() rebuilds / steps a VM")
+    # a helper of step() that runs guest code itself (the set-up of a program runs the bodies of its dependencies) counts like the stepping of a VM
+    VMRUN = ("BytecodeVM::step", "BytecodeVM::run", "Interpreter::run_vm_to_completion")
+    runners = 0
+    for bi, t in st.calls():
+        d3 = t[1].get("d") or ""
+        g3 = fx.fns.get(d3)
+        if g3 is None or not d3.startswith("interpreter::Interpreter::") or d3.endswith(("::abort_active_execution", "::finalize_active_execution")):
+            continue
+        if bi not in live and runs_guest(fx, g3, VMRUN, 64, set()):
+            live.append(bi)
+            runners += 1
+    ck.anchor(runners >= 1, "step() calls a helper that runs guest code (program set-up)")
     for bi, bl in enumerate(st.blocks):
         if bl["c"]:
             continue
-        for s in bl["s"]:
-            if s[0] == "a" and s[1][0] == 0 and not s[1][1] and s[2][0] == "agg" and isinstance(s[2][1], dict) and s[2][1].get("v") == "Err":
-                if not any(st.dominates(l, bi) for l in live):
+        exits3 = [s for s in bl["s"] if s[0] == "a" and s[1][0] == 0 and not s[1][1] and s[2][0] == "agg" and isinstance(s[2][1], dict) and s[2][1].get("v") == "Err"]
+        # the `?` form: the error is written to the return place by from_residual
+        t3 = bl["t"]
+        if t3[0] == "call" and (t3[1].get("u") or "").endswith("FromResidual::from_residual") and t3[3] and t3[3][0] == 0 and not t3[3][1]:
+            exits3.append(("a", None, None, t3[6]))
+        for s in exits3:
+            if True:
+                if not any(st.dominates(l, bi) and l != bi for l in live):
                     continue
                 ok = any(st.dominates(c3, bi) for c3 in closers3)
                 if not ok:
